@@ -109,7 +109,7 @@ def call(fn, o, f, nreq, seed):
         from harness.common import represent
 
         _CALLS[0] += 1
-        kind = ("c", "fortran", "strided", "readonly", "c")[_CALLS[0] % 5]
+        kind = ("c", "fortran", "strided", "readonly", "buffer", "buffer", "c")[_CALLS[0] % 7]
         o, f = represent(o, kind), represent(f, "strided" if kind == "fortran" else kind)
     try:
         out = fn(o, f, seed=seed, **kw)
